@@ -1,4 +1,4 @@
 SPECIFICATION Spec
-CONSTANTS MaxThreads = 1 NC = 2 Jobs = 2 Ordered = TRUE MaxSpurious = 0 defaultInitValue = defaultInitValue
+CONSTANTS MaxThreads = 1 NC = 2 Jobs = 2 Ordered = TRUE MaxSpurious = 0 Mixed = FALSE defaultInitValue = defaultInitValue
 INVARIANT NoRace
 CHECK_DEADLOCK FALSE
